@@ -10,7 +10,7 @@
 (*   P|{fam, i, j, isos:[[..]], sigeq}   atoms of g_i in ascending order   *)
 (*   E|{fam, i, achiral}                                                   *)
 (***************************************************************************)
-EXTENDS SMGIso, SMGEmit
+EXTENDS SMGIso, SMGEmit, SMGRefine
 
 CONSTANTS Fam,        \* family name
           SampleMod,  \* pairs with different invariants are sampled 1 in SampleMod
@@ -217,7 +217,9 @@ MapJ2(g, f) == JIntSeq([k \in 1..Len(SortedFrom(Atoms(g))) |-> f[SortedFrom(Atom
 Emit ==
    CASE ph = "row" ->
           LET g == FamSeq[i] IN
-          /\ PrintT("G|" \o JObj(<< JKV("fam", JStr(Fam)), JKV("i", JInt(i)), JKV("g", GJ(g)) >>))
+          /\ PrintT("G|" \o JObj(<< JKV("fam", JStr(Fam)), JKV("i", JInt(i)), JKV("g", GJ(g)),
+                                     JKV("part", IF HasStereo(g.kind) THEN "null"
+                                                 ELSE JSetArr({ JIds(c) : c \in Partition(g, TRUE) })) >>))
           /\ (HasStereo(g.kind) =>
                 PrintT("E|" \o JObj(<< JKV("fam", JStr(Fam)), JKV("i", JInt(i)),
                                        JKV("achiral", JBool(Isos(g, Enantiomer(g)) # {})),
@@ -251,4 +253,8 @@ PairThm ==
       /\ (i = j => S # {})                                            \* reflexive
       /\ Cardinality(S) = Cardinality(Isos(h, g))                     \* symmetric
       /\ (S # {} => Sig(g) = Sig(h))                                  \* Sig is an invariant
+      \* design theorems of colour refinement WITH the own colour (the repaired design), plain and reaction graphs:
+      \* isomorphic graphs get the same colour bag, and a different neighbourhood signature separates the bags
+      /\ (~HasStereo(g.kind) /\ S # {} => ColourBag(g, TRUE) = ColourBag(h, TRUE))
+      /\ (g.kind = "MG" /\ Sig(g) # Sig(h) => ColourBag(g, TRUE) # ColourBag(h, TRUE))
 =============================================================================
